@@ -185,7 +185,7 @@ private theorem run_establishCfg_fresh (here : Path) (k : String) (t t1 t2 n : T
     (establishCfg here [k] (.dict [])).run t = .ok (here ++ [k], t2, [here ++ [k], here ++ [k]]) := by
   have e1 : t1.get (here ++ [k]) = some Tree.empty := Tree.get_setAt_self _ _ _ _ h1
   have hm := run_modify (here ++ [k]) (fun n => applyConfig n (.dict [])) t1 t2 _ _ e1 applyConfig_empty h2
-  simp [establishCfg, establishPath, hdots, run_node, hn, hproc, hk, run_setAt, h1, hm]
+  simp [establishCfg, establishCfgOpt, establishPath, hdots, run_node, hn, hproc, hk, run_setAt, h1, hm]
 
 private theorem run_applySubschemaPath_plain (fuel : Nat) (here : Path) (k : String) (t n : Tree)
     (hn : t.get here = some n) (hk : AL.has k n.inner = true) (hsub : n.attrs.subschema = []) :
